@@ -1,6 +1,6 @@
 /-
   PINS of property C16: the decision tokens of every item the property is anchored in
-  (properties.jsonl `anchors` + tools/anchor_extra.json), as they were in /repo at b30ed81 when the
+  (properties.jsonl `anchors` + tools/anchor_extra.json), as they were in /repo at 770977e when the
   model was validated against the source.  Written by tools/pin_anchors.py; the right-hand sides are
   compared by the kernel with lean/Chrono/Extracted/Anchors.lean, which tools/extractors/anchors.py
   regenerates from /repo's working tree on every check.  A theorem that fails here means: anchored
@@ -80,7 +80,7 @@ theorem src_offset_local_tz_info_timezone_rs_fn_find_local_time_type_from_local 
 
 /-- src/offset/local/tz_info/timezone.rs:fn new -/
 theorem src_offset_local_tz_info_timezone_rs_fn_new : C16_src_offset_local_tz_info_timezone_rs_fn_new =
-    ["v1", "Vec", "<", "Transition", ">", "v2", "Vec", "<", "LocalTimeType", ">", "v3", "Vec", "<", "LeapSecond", ">", "v4", "Option", "<", "TransitionRule", ">", "->", "Result", "<", "Self", "Error", ">", "v5", "Self", "v1", "v2", "v3", "v4", "v5", "as_ref(", "validate(", "?", "Ok(", "v5", "§", "v1", "i64", "v2", "usize", "->", "Self", "Self", "v1", "v2", "§", "v1", "i64", "v2", "i32", "->", "Self", "Self", "v1", "v2", "§", "v1", "&", "u8", "->", "Result", "<", "Self", "Error", ">", "v2", "v1", "len(", "if!(", "3", "..=", "7", "contains(", "&", "v2", "return", "Err(", "Error", "LocalTimeType(", "\"…\"", "v3", "0", "8", "v3", "0", "v1", "len(", "as", "u8", "v4", "0", "while", "v4", "<", "v2", "v5", "v1", "v4", "match", "v5", "b'0'", "..=", "b'9'", "|", "b'A'", "..=", "b'Z'", "|", "b'a'", "..=", "b'z'", "|", "b'+'", "|", "b'-'", "=>", "v6", "=>", "return", "Err(", "Error", "LocalTimeType(", "\"…\"", "v3", "v4", "+", "1", "v5", "v4", "+=", "1", "Ok(", "Self", "v3", "§", "v1", "i32", "v2", "bool", "v3", "Option", "<", "&", "u8", ">", "->", "Result", "<", "Self", "Error", ">", "if", "v1", "==", "i32", "MIN", "return", "Err(", "Error", "LocalTimeType(", "\"…\"", "v3", "match", "v3", "Some(", "v3", "=>", "TimeZoneName", "new(", "v3", "?", "None", "=>", "return", "Ok(", "Self", "v1", "v2", "v3", "None", "Ok(", "Self", "v1", "v2", "v3", "Some(", "v3"] := by decide +kernel
+    ["v1", "Vec", "<", "Transition", ">", "v2", "Vec", "<", "LocalTimeType", ">", "v3", "Vec", "<", "LeapSecond", ">", "v4", "Option", "<", "TransitionRule", ">", "->", "Result", "<", "Self", "Error", ">", "v5", "Self", "v1", "v2", "v3", "v4", "v5", "as_ref(", "validate(", "?", "Ok(", "v5", "§", "v1", "i64", "v2", "usize", "->", "Self", "Self", "v1", "v2", "§", "v1", "i64", "v2", "i32", "->", "Self", "Self", "v1", "v2", "§", "v1", "&", "u8", "->", "Result", "<", "Self", "Error", ">", "v2", "v1", "len(", "if!(", "3", "..=", "7", "contains(", "&", "v2", "return", "Err(", "Error", "LocalTimeType(", "\"…\"", "v3", "0", "8", "v3", "0", "v1", "len(", "as", "u8", "v4", "0", "while", "v4", "<", "v2", "v5", "v1", "v4", "match", "v5", "b'0'", "..=", "b'9'", "|", "b'A'", "..=", "b'Z'", "|", "b'a'", "..=", "b'z'", "|", "b'+'", "|", "b'-'", "=>", "v6", "=>", "return", "Err(", "Error", "LocalTimeType(", "\"…\"", "v3", "v4", "+", "1", "v5", "v4", "+=", "1", "Ok(", "Self", "v3", "§", "v1", "i32", "v2", "bool", "v3", "Option", "<", "&", "u8", ">", "->", "Result", "<", "Self", "Error", ">", "if", "v1", "<=", "-", "86400", "||", "v1", ">=", "86400", "return", "Err(", "Error", "LocalTimeType(", "\"…\"", "v3", "match", "v3", "Some(", "v3", "=>", "TimeZoneName", "new(", "v3", "?", "None", "=>", "return", "Ok(", "Self", "v1", "v2", "v3", "None", "Ok(", "Self", "v1", "v2", "v3", "Some(", "v3"] := by decide +kernel
 
 /-- src/offset/local/tz_info/timezone.rs:fn unix_time_to_unix_leap_time -/
 theorem src_offset_local_tz_info_timezone_rs_fn_unix_time_to_unix_leap_time : C16_src_offset_local_tz_info_timezone_rs_fn_unix_time_to_unix_leap_time =
@@ -89,6 +89,10 @@ theorem src_offset_local_tz_info_timezone_rs_fn_unix_time_to_unix_leap_time : C1
 /-- src/offset/local/tz_info/timezone.rs:fn validate -/
 theorem src_offset_local_tz_info_timezone_rs_fn_validate : C16_src_offset_local_tz_info_timezone_rs_fn_validate =
     ["&", "self", "->", "Result", "<", "Error", ">", "v1", "self", "v2", "len(", "if", "v1", "==", "0", "return", "Err(", "Error", "TimeZone(", "\"…\"", "v3", "0", "while", "v3", "<", "self", "v4", "len(", "if", "self", "v4", "v3", "v5", ">=", "v1", "return", "Err(", "Error", "TimeZone(", "\"…\"", "if", "v3", "+", "1", "<", "self", "v4", "len(", "&&", "self", "v4", "v3", "v6", ">=", "self", "v4", "v3", "+", "1", "v6", "return", "Err(", "Error", "TimeZone(", "\"…\"", "v3", "+=", "1", "if!(", "self", "v7", "is_empty(", "||", "self", "v7", "0", "v6", ">=", "0", "&&", "self", "v7", "0", "v8", "saturating_abs(", "==", "1", "return", "Err(", "Error", "TimeZone(", "\"…\"", "v9", "SECONDS_PER_28_DAYS", "-", "1", "v10", "0", "while", "v10", "<", "self", "v7", "len(", "if", "v10", "+", "1", "<", "self", "v7", "len(", "v11", "&", "self", "v7", "v10", "v12", "&", "self", "v7", "v10", "+", "1", "v13", "v12", "v6", "saturating_sub(", "v11", "v6", "v14", "v12", "v8", "saturating_sub(", "v11", "v8", "saturating_abs(", "if!(", "v13", ">=", "v9", "&&", "v14", "==", "1", "return", "Err(", "Error", "TimeZone(", "\"…\"", "v10", "+=", "1", "let(", "v15", "v16", "match(", "&", "self", "v15", "self", "v4", "last(", "Some(", "v17", "Some(", "v18", "=>", "v17", "v18", "v19", "=>", "return", "Ok(", "v20", "&", "self", "v2", "v16", "v5", "v21", "match", "self", "unix_leap_time_to_unix_time(", "v16", "v6", "Ok(", "v21", "=>", "v21", "Err(", "Error", "OutOfRange(", "v22", "=>", "return", "Err(", "Error", "TimeZone(", "v22", "Err(", "v23", "=>", "return", "Err(", "v23", "v24", "match", "v15", "find_local_time_type(", "v21", "Ok(", "v24", "=>", "v24", "Err(", "Error", "OutOfRange(", "v22", "=>", "return", "Err(", "Error", "TimeZone(", "v22", "Err(", "v23", "=>", "return", "Err(", "v23", "v25", "v20", "v26", "==", "v24", "v26", "&&", "v20", "v27", "==", "v24", "v27", "&&", "match(", "&", "v20", "v28", "&", "v24", "v28", "Some(", "v29", "Some(", "v30", "=>", "v29", "equal(", "v30", "None", "None", "=>", "true", "v19", "=>", "false", "if", "!", "v25", "return", "Err(", "Error", "TimeZone(", "\"…\"", "Ok("] := by decide +kernel
+
+/-- src/offset/local/tz_info/timezone.rs:fn with_offset -/
+theorem src_offset_local_tz_info_timezone_rs_fn_with_offset : C16_src_offset_local_tz_info_timezone_rs_fn_with_offset =
+    ["v1", "i32", "->", "Result", "<", "Self", "Error", ">", "if", "v1", "<=", "-", "86400", "||", "v1", ">=", "86400", "return", "Err(", "Error", "LocalTimeType(", "\"…\"", "Ok(", "Self", "v1", "v2", "false", "v3", "None"] := by decide +kernel
 
 /-- callee src/datetime/mod.rs:fn from_naive_utc_and_offset -/
 theorem callee_src_datetime_mod_rs_fn_from_naive_utc_and_offset : C16_callee_src_datetime_mod_rs_fn_from_naive_utc_and_offset =
